@@ -437,6 +437,8 @@ var zGoodModules = []ZModule{
 	// "gopkg.in/yaml.v1 (or its -unstable form) may also have a v0.0.0- pseudo-version": the documented exception
 	{"gopkg.in/check.v1", "v0.0.0-20161208181325-20d25e280405", "gopkg-v1-with-v0-pseudo"},
 	{"gopkg.in/x.v1-unstable", "v0.0.0-20161208181325-20d25e280405", "gopkg-v1-with-v0-pseudo"},
+	{"example.com/big/v9223372036854775808", "v9223372036854775808.0.1", "major-above-int64"},
+	{"gopkg.in/big.v18446744073709551616", "v18446744073709551616.2.0", "major-above-int64"},
 	{"gopkg.info/tools/lib", "v1.0.0", "host-starting-like-gopkg.in"},
 	{"gopkg.in.example.com/lib/v2", "v2.1.0", "host-starting-like-gopkg.in"},
 	{"example.com/m", "v2.0.0-rc.1+incompatible", "prerelease-incompatible"},
